@@ -385,6 +385,22 @@ func decide(c jCase) *rp.Fail {
 				fail = rp.Failf("types.TaskType.UnmarshalTSV/number", "UnmarshalTSV(%q) = %v, %v; want %d", fmt.Sprint(int(tt)+1), v, err, tt)
 			} else if err := json.Unmarshal([]byte(fmt.Sprint(int(tt)+1)), &got); err != nil || got != tt {
 				fail = rp.Failf("types.TaskType.UnmarshalJSON/number", "JSON number %d decoded as %v, %v", int(tt)+1, got, err)
+			} else {
+				// the number written with leading zeros (a fixed-width column in a TSV file): a deviating notation that may be accepted
+				// or refused - but an accepted one is the DECIMAL number it shows, and only 1..13 are task types
+				for _, n := range []int{int(tt) + 1, int(c.N[1]) % 25} {
+					for _, width := range []string{"%02d", "%03d", "%05d"} {
+						text := fmt.Sprintf(width, n)
+						if text == fmt.Sprint(n) {
+							continue
+						}
+						v, err := z.UnmarshalTSV(text)
+						if tv, ok := v.(types.TaskType); err == nil && ok && (n < 1 || n > 13 || int(tv) != n-1) {
+							fail = rp.Failf("types.TaskType.UnmarshalTSV/zero-padded-number", "UnmarshalTSV(%q) = %d (%v): the text shows the number %d", text, int(tv)+1, tv, n)
+							return
+						}
+					}
+				}
 			}
 		case "ControlState":
 			cs := types.ControlState(1 + c.N[0]%3)
@@ -757,6 +773,11 @@ func genCase(t *rapid.T) jCase {
 	}
 	for i := range c.MAC {
 		c.MAC[i] = rapid.Byte().Draw(t, "mac")
+	}
+	if rapid.IntRange(0, 5).Draw(t, "mac.special") == 0 {
+		// the addresses that mean something: all zeroes (unset), broadcast, a multicast group, locally administered, ones that end or
+		// start in zeroes
+		c.MAC = rapid.SampledFrom([][6]byte{{}, {}, {0xff, 0xff, 0xff, 0xff, 0xff, 0xff}, {0x01, 0x00, 0x5e, 0, 0, 1}, {0x02, 0, 0, 0, 0, 0}, {0, 0, 0, 0, 0, 1}, {0x00, 0x66, 0x19, 0, 0, 0}}).Draw(t, "mac.value")
 	}
 	c.IP = gen.IPv4(t, "ip")
 	c.Port = gen.Port(t, "port")
